@@ -12,49 +12,73 @@ set_option linter.unusedVariables false
 
 /-! ### sync mode -/
 
-structure SyncInv (W : World) (s : SyncSys) : Prop where
+/-- `n` units have been applied, exactly 1..n in order; `latest` is the record of unit n -/
+structure SyncInv (W : World) (s : SyncSys) (n : Nat) : Prop where
   root : ∃ db, s.ns.root = some (W.rid, W.e 0, db)
-  nonneg : 0 ≤ s.last
-  latest : ∀ r, s.ns.latest = some r → r = { (unitRec W s.last r.mtime) with slot := r.slot } ∧ 0 < s.last
+  cur : s.cur = (n : Int)
+  applied : s.applied = upTo n
+  none0 : s.ns.latest = none → n = 0
+  latest : ∀ r, s.ns.latest = some r → r = { (unitRec W (n : Int) r.mtime) with slot := r.slot } ∧ 0 < n
 
-theorem syncStep_inv {W : World} {s : SyncSys} (hi : SyncInv W s) (st : SyncStep) :
-    SyncInv W (syncStep W s st) := by
-  cases st with
-  | restart => exact hi
-  | commitNext mt =>
-    refine ⟨hi.root, by simp only [syncStep]; have := hi.nonneg; omega, ?_⟩
-    intro r hr
-    simp only [syncStep, applyReq, Option.some.injEq] at hr
-    subst hr
-    exact ⟨rfl, by simp only [syncStep]; have := hi.nonneg; omega⟩
-
-theorem syncRun_inv {W : World} (steps : List SyncStep) :
-    ∀ {s : SyncSys}, SyncInv W s → SyncInv W (syncRun W s steps) := by
-  induction steps with
-  | nil => intro s hi; exact hi
-  | cons st rest ih => intro s hi; exact ih (syncStep_inv hi st)
-
-theorem startLatest_of_inv {W : World} {s : SyncSys} (hi : SyncInv W s)
-    (hmono : ∀ i, 0 ≤ i → W.e 0 ≤ W.e i) (hrid : matchRun W.rid W.ids = true) (r : Rec)
-    (hr : s.ns.latest = some r) : startLatest s.ns W.ids = .point 0 W.rid (W.e s.last) s.last := by
+theorem startLatest_of_inv {W : World} {s : SyncSys} {n : Nat} (hi : SyncInv W s n)
+    (hmono : ∀ i, 0 ≤ i → W.e 0 ≤ W.e i) (hrid : matchRun W.rid W.ids = true) :
+    ∃ db, startLatest s.ns W.ids = .point db W.rid (W.e n) n := by
   obtain ⟨db, hroot⟩ := hi.root
-  obtain ⟨hrec, hpos⟩ := hi.latest r hr
-  have hrun : r.runId = W.rid := by rw [hrec]; rfl
-  have hseq : r.seq = s.last := by rw [hrec]; rfl
-  have hend : r.endOff = W.e s.last := by rw [hrec]; rfl
-  unfold startLatest
-  rw [hroot, hr]
-  simp only [hrun, hrid, if_true]
-  have : rootNewer (W.rid, W.e 0, db) r.endOff W.ids = false := by
-    unfold rootNewer
-    have := hmono s.last hi.nonneg
-    simp only [hend]
-    rw [Bool.eq_false_iff]
-    intro h
-    simp only [decide_eq_true_eq] at h
-    omega
-  rw [this]
-  simp [hseq, hend]
+  cases hl : s.ns.latest with
+  | none =>
+    have : n = 0 := hi.none0 hl
+    subst this
+    exact ⟨db, by unfold startLatest; rw [hroot, hl]; rfl⟩
+  | some r =>
+    obtain ⟨hrec, hpos⟩ := hi.latest r hl
+    have hrun : r.runId = W.rid := by rw [hrec]; rfl
+    have hseq : r.seq = (n : Int) := by rw [hrec]; rfl
+    have hend : r.endOff = W.e n := by rw [hrec]; rfl
+    refine ⟨0, ?_⟩
+    unfold startLatest
+    rw [hroot, hl]
+    simp only [hrun, hrid, if_true]
+    have : rootNewer (W.rid, W.e 0, db) r.endOff W.ids = false := by
+      unfold rootNewer
+      have := hmono n (by omega)
+      simp only [hend]
+      rw [Bool.eq_false_iff]
+      intro h
+      simp only [decide_eq_true_eq] at h
+      omega
+    rw [this]
+    simp [hseq, hend]
+
+theorem syncStep_inv {W : World} {s : SyncSys} {n : Nat} (hi : SyncInv W s n)
+    (hmono : ∀ i, 0 ≤ i → W.e 0 ≤ W.e i) (hrid : matchRun W.rid W.ids = true) (st : SyncStep) :
+    ∃ n', SyncInv W (syncStep W s st) n' := by
+  cases st with
+  | restart =>
+    obtain ⟨db, hst⟩ := startLatest_of_inv hi hmono hrid
+    refine ⟨n, ?_⟩
+    simp only [syncStep, hst]
+    exact ⟨hi.root, rfl, hi.applied, hi.none0, hi.latest⟩
+  | commitNext mt =>
+    refine ⟨n + 1, hi.root, ?_, ?_, ?_, ?_⟩
+    · simp only [syncStep, hi.cur]; omega
+    · simp only [syncStep, hi.applied, hi.cur, upTo]; congr 2
+    · intro h; simp [syncStep, applyReq] at h
+    · intro r hr
+      simp only [syncStep, applyReq, Option.some.injEq] at hr
+      subst hr
+      refine ⟨?_, by omega⟩
+      simp only [unitRec, hi.cur]
+      congr 1
+
+theorem syncRun_inv {W : World} (hmono : ∀ i, 0 ≤ i → W.e 0 ≤ W.e i)
+    (hrid : matchRun W.rid W.ids = true) (steps : List SyncStep) :
+    ∀ {s : SyncSys} {n : Nat}, SyncInv W s n → ∃ n', SyncInv W (syncRun W s steps) n' := by
+  induction steps with
+  | nil => intro s n hi; exact ⟨n, hi⟩
+  | cons st rest ih =>
+    intro s n hi
+    obtain ⟨n', hi'⟩ := syncStep_inv hi hmono hrid st
+    exact ih hi'
 
 /-! ### restarts -/
 
@@ -63,6 +87,7 @@ structure Consistent (W : World) (ns : NS) : Prop where
   mono : ∀ i j, i ≤ j → W.e i ≤ W.e j
   jr : ∀ j ∈ ns.journal, j.r.endOff = W.e j.r.seq
   fr : ∀ f, ns.frontier = some f → f.offset = W.e f.seq
+  root : ∀ x, ns.root = some x → x.2.1 = W.e 0
 
 def PointLe : Start → Start → Prop
   | .point _ _ o s, .point _ _ o' s' => o ≤ o' ∧ s ≤ s'
@@ -130,9 +155,32 @@ theorem loadRecords_match {ns : NS} {ids : List Bytes} {m : Int} {j : JRec}
     · rename_i hm; simp only [Option.some.injEq] at hp; subst hp; exact hm
     · exact absurd hp (by simp)
 
-/-- either a start writes nothing, or it selected the rebuilt frontier `f` -/
+/-- requests of a purge -/
+def PurgeReq (q : Req) : Prop := (∃ k, q = .delRec k) ∨ (∃ ks, q = .zrem ks) ∨ q = .delFrontier
+
+theorem purgeReqs_form (ns : NS) (ids : List Bytes) : ∀ q ∈ purgeReqs ns ids, PurgeReq q := by
+  intro q hq
+  unfold purgeReqs at hq
+  rcases List.mem_append.mp hq with hq | hq
+  · rcases List.mem_append.mp hq with hq | hq
+    · obtain ⟨k, _, rfl⟩ := List.mem_map.mp hq; exact Or.inl ⟨k, rfl⟩
+    · split at hq
+      · simp at hq
+      · exact Or.inr (Or.inl ⟨_, List.mem_singleton.mp hq⟩)
+  · exact Or.inr (Or.inr (List.mem_singleton.mp hq))
+
+theorem restartFromRoot_form (ns : NS) (ids : List Bytes) (root : Bytes × Int × Nat) :
+    ∃ reqs, restartFromRoot ns ids root = (rootPoint root, reqs) ∧ ∀ q ∈ reqs, PurgeReq q := by
+  unfold restartFromRoot
+  split
+  · exact ⟨_, rfl, purgeReqs_form ns ids⟩
+  · exact ⟨[], rfl, by simp⟩
+
+/-- a start finds no root checkpoint, or falls back to it (purging), or selects the rebuilt frontier `f` -/
 theorem startFrontier_cases (ver : Bytes) (ns : NS) (ids : List Bytes) :
-    (∃ st, startFrontier ver ns ids = (st, [])) ∨
+    (ns.root = none ∧ startFrontier ver ns ids = (.empty, [])) ∨
+    (∃ root reqs, ns.root = some root ∧ startFrontier ver ns ids = (rootPoint root, reqs) ∧
+      ∀ q ∈ reqs, PurgeReq q) ∨
     (∃ root f, ns.root = some root ∧
       rebuild ver (loadSnapshot ns ids) ((startRecords ns ids).map (·.r)) = .ok (some f) ∧
       f.seq > 0 ∧ rootNewer root f.offset ids = false ∧
@@ -141,23 +189,27 @@ theorem startFrontier_cases (ver : Bytes) (ns : NS) (ids : List Bytes) :
          recoveryReqs (startRecords ns ids) f)) := by
   unfold startFrontier
   cases hroot : ns.root with
-  | none => left; exact ⟨_, rfl⟩
+  | none => left; exact ⟨rfl, rfl⟩
   | some root =>
     dsimp only
+    have hR : (∃ root' reqs, some root = some root' ∧ restartFromRoot ns ids root = (rootPoint root', reqs) ∧
+        ∀ q ∈ reqs, PurgeReq q) := by
+      obtain ⟨reqs, h1, h2⟩ := restartFromRoot_form ns ids root
+      exact ⟨root, reqs, rfl, h1, h2⟩
     cases hrb : rebuild ver (loadSnapshot ns ids) ((startRecords ns ids).map (·.r)) with
-    | error m => left; exact ⟨_, rfl⟩
+    | error m => right; left; exact hR
     | ok res =>
       cases res with
-      | none => left; exact ⟨_, rfl⟩
+      | none => right; left; exact hR
       | some f =>
         dsimp only
         by_cases hpos : f.seq > 0
         · rw [if_pos hpos]
           by_cases hnew : rootNewer root f.offset ids = true
-          · rw [if_pos hnew]; left; exact ⟨_, rfl⟩
-          · rw [if_neg hnew]; right
+          · rw [if_pos hnew]; right; left; exact hR
+          · rw [if_neg hnew]; right; right
             exact ⟨root, f, rfl, rfl, hpos, by simpa using hnew, rfl⟩
-        · rw [if_neg hpos]; left; exact ⟨_, rfl⟩
+        · rw [if_neg hpos]; right; left; exact hR
 
 theorem rebuild_some_pos (ver : Bytes) (f : Snap) (recs : List Rec) (hpos : f.seq > 0) :
     ∃ f', rebuild ver (some f) recs = .ok (some f') := by
@@ -236,6 +288,38 @@ theorem applyAll_dels (ns : NS) (rs : List Req)
     · exact ⟨h1, h2, fun j hj => (List.mem_filter.mp (h3 j hj)).1⟩
     · exact ⟨h1, h2, h3⟩
 
+/-- a purge only removes: the root stays, the journal shrinks, the frontier stays or goes -/
+theorem applyAll_purge (ns : NS) (rs : List Req) (hrs : ∀ q ∈ rs, PurgeReq q) :
+    (applyAll ns rs).root = ns.root ∧
+    ((applyAll ns rs).frontier = ns.frontier ∨ (applyAll ns rs).frontier = none) ∧
+    (∀ j ∈ (applyAll ns rs).journal, j ∈ ns.journal) := by
+  induction rs generalizing ns with
+  | nil => exact ⟨rfl, Or.inl rfl, fun j hj => hj⟩
+  | cons q rs ih =>
+    simp only [applyAll, List.foldl_cons]
+    obtain ⟨h1, h2, h3⟩ := ih (applyReq ns q) (fun q' hq' => hrs q' (List.mem_cons_of_mem _ hq'))
+    simp only [applyAll] at h1 h2 h3
+    rcases hrs q (List.mem_cons_self ..) with ⟨k, rfl⟩ | ⟨ks, rfl⟩ | rfl
+    · exact ⟨h1, h2, fun j hj => (List.mem_filter.mp (h3 j hj)).1⟩
+    · exact ⟨h1, h2, h3⟩
+    · refine ⟨h1, ?_, h3⟩
+      rcases h2 with h | h
+      · right; rw [h]; rfl
+      · right; exact h
+
+/-- in a consistent namespace with a root checkpoint every start is a point on the numbering -/
+theorem start_point_of_consistent {W : World} {ns : NS} (hc : Consistent W ns)
+    (root : Bytes × Int × Nat) (hroot : ns.root = some root) :
+    ∃ db rid seq, (startFrontier W.ver ns W.ids).1 = .point db rid (W.e seq) seq ∧ 0 ≤ seq := by
+  rcases startFrontier_cases W.ver ns W.ids with ⟨h, _⟩ | ⟨root', reqs, hr, hst, _⟩ | ⟨root', f, hr, hrb, hpos, _, hst⟩
+  · rw [hroot] at h; exact absurd h (by simp)
+  · rw [hst]
+    refine ⟨root'.2.2, root'.1, 0, ?_, Int.le_refl _⟩
+    simp only [rootPoint, hc.root root' hr]
+  · rw [hst]
+    obtain ⟨hfe, _⟩ := selected_consistent hc f hrb hpos
+    exact ⟨0, _, f.seq, by rw [hfe], by omega⟩
+
 /-- one stop/start cycle: the next start point is not smaller -/
 theorem restart_step {W : World} {ns : NS} (hc : Consistent W ns) (db : Nat) (rid : Bytes) (off seq : Int)
     (h : (startFrontier W.ver ns W.ids).1 = .point db rid off seq) (k : Nat) :
@@ -250,9 +334,29 @@ theorem restart_step {W : World} {ns : NS} (hc : Consistent W ns) (db : Nat) (ri
         off ≤ off' ∧ seq ≤ seq' := by
     intro he; rw [he]
     exact ⟨hc, db, rid, off, seq, h, Int.le_refl _, Int.le_refl _⟩
-  rcases startFrontier_cases W.ver ns W.ids with ⟨st, hst⟩ | ⟨root, f, hroot, hrb, hpos, hnew, hst⟩
-  · apply hsame
-    unfold restartState; rw [hst]; simp [applyAll]
+  rcases startFrontier_cases W.ver ns W.ids with ⟨_, hst⟩ | ⟨root, reqs, hroot, hst, hreqs⟩ |
+      ⟨root, f, hroot, hrb, hpos, hnew, hst⟩
+  · rw [hst] at h; exact absurd h (by simp)
+  · -- fell back to the root checkpoint: a purge may have been cut anywhere
+    rw [hst] at h
+    simp only [rootPoint, Start.point.injEq] at h
+    obtain ⟨_, _, hoff, hseq⟩ := h
+    have hstate : restartState W.ver W.ids ns k = applyAll ns (reqs.take k) := by
+      unfold restartState; rw [hst]
+    obtain ⟨hr1, hr2, hr3⟩ := applyAll_purge ns (reqs.take k) (fun q hq => hreqs q (List.mem_of_mem_take hq))
+    rw [hstate]
+    generalize applyAll ns (reqs.take k) = ns' at hr1 hr2 hr3
+    have hc' : Consistent W ns' := by
+      refine ⟨hc.mono, fun j hj => hc.jr j (hr3 j hj), ?_, fun x hx => hc.root x (hr1 ▸ hx)⟩
+      intro f' hf'
+      rcases hr2 with h2 | h2
+      · exact hc.fr f' (h2 ▸ hf')
+      · rw [h2] at hf'; exact absurd hf' (by simp)
+    refine ⟨hc', ?_⟩
+    obtain ⟨db', rid', seq', hst', hs'⟩ := start_point_of_consistent hc' root (hr1.trans hroot)
+    refine ⟨db', rid', W.e seq', seq', hst', ?_, by omega⟩
+    rw [← hoff, hc.root root hroot]
+    exact hc.mono 0 seq' hs'
   · rw [hst] at h
     simp only [Start.point.injEq] at h
     obtain ⟨_, _, hoff, hseq⟩ := h
@@ -278,7 +382,8 @@ theorem restart_step {W : World} {ns : NS} (hc : Consistent W ns) (db : Nat) (ri
         have hj' : ∀ j ∈ ns'.journal, j ∈ ns.journal := fun j hj => hr3 j hj
         have hc' : Consistent W ns' :=
           ⟨hc.mono, fun j hj => hc.jr j (hj' j hj), fun f' hf' => by
-            rw [hfr'] at hf'; simp only [Option.some.injEq] at hf'; subst hf'; exact hfe⟩
+            rw [hfr'] at hf'; simp only [Option.some.injEq] at hf'; subst hf'; exact hfe,
+           fun x hx => hc.root x (by rw [hroot'] at hx; rw [hroot]; exact hx)⟩
         refine ⟨hc', ?_⟩
         have hsnap' : loadSnapshot ns' W.ids = some f := loadSnapshot_of_frontier hfr' hfm
         obtain ⟨f', hrb'⟩ := rebuild_some_pos W.ver f ((startRecords ns' W.ids).map (·.r)) hpos
@@ -315,7 +420,6 @@ theorem restarts_ascending {W : World} (ks : List Nat) :
   | cons k ks ih =>
     intro ns hc hp
     cases hst : (startFrontier W.ver ns W.ids).1 with
-    | gap m => rw [hst] at hp; exact absurd hp (by simp [IsPoint])
     | empty => rw [hst] at hp; exact absurd hp (by simp [IsPoint])
     | point db rid off seq =>
       obtain ⟨hc', db', rid', off', seq', hst', ho, hs⟩ := restart_step hc db rid off seq hst k
